@@ -51,6 +51,112 @@ CHECKS["C18"] = dict(
    note=TB + "OpenMP atomic/critical/locks assumed sequentially consistent; races outside the modelled protocols are visible only to the perturbed runs; list-mode gradient and scatter not exercised.",
    design="DESIGN.md §4 C18")
 
+CHECKS["C02"] = dict(
+   technique="Lean 4 proofs (offset injectivity, path/address exactness, history refinement to one abstract array), differential correspondence on real ProjDataFromStream/InMemory/Interfile byte images",
+   text="Proof: for every geometry (unequal axial sizes, any view/tangential/TOF ranges), both storage orders, every permutation of the segment sequence, element size and stream offset the model of "
+        "get_offset/get_index is injective on in-range bins and lands inside the store; every access path (bin, viewgram, sinogram, segment by view/by sinogram incl. conversion, related viewgrams, fill) "
+        "touches exactly the addresses of its bins, contiguously where the code issues one read/write; after ANY history of writes through any paths the store equals the abstract array "
+        "(last write wins, untouched bins keep their value) and reading through any path returns it; out-of-range requests are errors given the range checks the implementation is observed to have. "
+        "Tie: random interleaved histories on the real ProjDataFromStream (stringstream and file), ProjDataInterfile and ProjDataInMemory; per write the changed byte slots, per read the values, are "
+        "compared with the model for equality; a reference-map oracle, a second independent reader (visibility before the harness flushes) and a header round trip run on the implementation.",
+   note=TB + "values are small integers so every on-disk type is exact; byte encoding decoded by the harness, not modelled; fstream buffering/OS cache are runtime (model records only where flush() is issued); Interfile header text is correspondence-only.",
+   design="DESIGN.md §4 C02")
+CHECKS["C04"] = dict(
+   technique="Lean 4 proofs over an arbitrary commutative ring and arbitrary sparse rows (linearity, adjointness, additivity, frame conditions, branch agreement), exact-Rat differential correspondence on the real projector pair",
+   text="Proof: for an arbitrary family of sparse rows over any commutative ring, any layout and any index ranges: forward and back projection of any bin sequence are linear, adjoint "
+        "(<Ax,y> = <x,A^T y> for full data, every subset, every related-viewgram group and sub-range, both code branches), additive over pieces and over subsets (given C06's partition), forward "
+        "projection of a subset leaves other bins unchanged or zero as requested, back projection accumulates, and the explicit-symmetries branch agrees with the per-bin branch when the related "
+        "lists partition the range (negative witness where they do not: listed known finding for Blocks/Generic TOF data with cache disabled). Tie: rows are read from the real ProjMatrixByBin, "
+        "the real ForwardProjectorByBinUsingProjMatrixByBin/BackProjectorByBinUsingProjMatrixByBin are run on random data for subsets, groups, sub-ranges, cache on/off, cylindrical/blocks, TOF/non-TOF and the "
+        "model recomputes every value exactly in Rat (derived rounding bound); adjointness, additivity and frame oracles run on the implementation; the on-the-fly ray-tracing projector vs matrix clause is oracle-only.",
+   note=TB + "what the rows are (Siddon ray tracing) is uninterpreted; float summation order covered only by the derived bound; ForwardProjectorByBinUsingRayTracing is not modelled (oracle comparison only).",
+   design="DESIGN.md §4 C04")
+CHECKS["C05"] = dict(
+   technique="Lean 4 proofs over any linearly ordered field (exact identities, sums over subsets, derivative theorems over the reals via Mathlib, set-up flag state machine for all request histories), exact-Rat/Float differential correspondence",
+   text="Proof: in the model transcribed from PoissonLogLikelihoodWithLinearModelForMeanAndProjData (thresholds, end-plane clearing, normalisation, additive term, TOF loop) gradient = gradient-plus-sensitivity "
+        "- sensitivity exactly; Hessian products, sensitivities and penalised quantities summed over subsets equal the full-data quantity; on the regular region the value is the textbook Poisson "
+        "log-likelihood, the gradient is its derivative and the textbook Hessian product the derivative of the gradient (HasDerivAt over the reals); the set-up flag machine serves every request of "
+        "every history with the projectors it needs, whatever the indeterminate initial flags. The Hessian clause is partial for zero_seg0_end_planes (negative witness, listed known finding). "
+        "Tie: the real objective function on generated small geometries with the explicit matrix read from the real projector; every quantity is recomputed by the model exactly in Rat (value in Float) and "
+        "compared under a derived rounding bound; all orders of first use of the request kinds; textbook oracle on the implementation.",
+   note=TB + "log and float accumulation modelled, not verified; distributed/MPI paths not built; the matrix rows are data read from the implementation.",
+   design="DESIGN.md §4 C05")
+CHECKS["C08"] = dict(
+   technique="Lean 4 proofs (update formula, bounds, positivity of D, relaxation schedule, restart equality by induction over the run), exact-Rat differential correspondence on the real OSSPSReconstruction",
+   text="Proof: for every objective (any gradient, curvature, Hessian-on-ones, non-identifiable set), image size, parameters and sub-iteration: the model of update_estimate is voxelwise "
+        "clamp(lambda + g N / D zeta, 0, ub) with the denominator used/stored in every branch; every iterate of every run lies in [0, ub] (ub >= 0; negative witness otherwise); D is strictly positive in "
+        "every sub-iteration; zeta = alpha/(1+gamma n) for ALL sub-iterations of full iteration n; resuming after any k reproduces the uninterrupted run exactly (state equality for all later "
+        "sub-iterations and final results) for no prior / image-independent curvature, with enforce_initial_positivity off or a positive saved image (witnesses show both side conditions necessary and the "
+        "documented set_up trap). Tie: the real OSSPSReconstruction (set_up/update_estimate/reconstruct, restarts from saved iterates compared bitwise) on generated problems; gradients and curvatures the real "
+        "objects return are data, the model predicts every iterate in Rat within a derived bound. Two defects found this way were repaired in /repo (relaxation off by one sub-iteration; non-identifiable voxels re-zeroed only on resume).",
+   note=TB + "float rounding modelled by a derived bound; objective function answers (gradient, curvature, Hessian on ones) are inputs to the model (their correctness is C05/C09); filters not exercised.",
+   design="DESIGN.md §4 C08")
+CHECKS["C10"] = dict(
+   technique="Lean 4 proofs over Rat/Int (position round trip with explicit formatting error, no-overflow and quantisation bounds of the scale-factor arithmetic, exam-info round trip), differential correspondence on real Interfile image IO",
+   text="Proof: for every index range, origin, voxel size: the header arithmetic (first pixel offset, reader's index range, recomputed origin) preserves every voxel's physical position exactly when header numbers "
+        "print exactly and within an explicit bound otherwise; with find_scale_factor's result no stored integer overflows (types below 2^31) and decoding is within half a quantisation step (plus the header's "
+        "scale-factor printing error); float output is exact; truncated data is rejected in the model of read_data; every exam-information field the format stores survives for frames of positive duration. "
+        "Clauses the code violates are negative-witness theorems tied to listed known findings (unsigned >= 32-bit output, double with automatic scale, unsigned output of non-positive images, NM multi-dataset offset). "
+        "Tie: the real write_to_file/read_from_file on generated images x number types x byte orders x scale factors x exam infos, compared field by field with the model; round-trip oracle on the implementation.",
+   note=TB + "decimal formatting of floats is an abstract rounding with a stated relative error; stream/OS behaviour is runtime; only the Interfile image format family (incl. dynamic/parametric multi) is exercised.",
+   design="DESIGN.md §4 C10")
+CHECKS["C13"] = dict(
+   technique="Lean 4 proofs over any linearly ordered field (pointwise efficiency, apply/undo inverse, chains as products, grouping independence, Beer-Lambert form), exact-Rat differential correspondence on the real BinNormalisation classes",
+   text="Proof: for every normalisation object (any nesting of chains), bin and value: undo multiplies by one fixed efficiency, positive for positive factor data and equal to the reported efficiency where one is "
+        "reported; apply divides by it above the 1e-20 floor; apply-then-undo is the identity there (exact statement of what happens below the floor, with negative witness); a chain's efficiency is the product "
+        "of its members'; processing by related viewgrams under any grouping equals processing the whole data set; TOF data with non-TOF factors use the timing-position-0 factor; attenuation factors are the "
+        "exponential of the line integral (for any E with E(x+y)=E(x)E(y)). 'Trivial changes nothing' is partial: listed known finding for bins outside the fan with an even number of tangential positions. "
+        "Tie: real BinNormalisationFromProjData, FromAttenuationImage, PETFromComponents, WithCalibration, Chained objects on generated geometries; every bin compared with the exact-Rat model; oracle on the implementation.",
+   note=TB + "exp is an abstract homomorphism in the theorems and Float in the driver; ECAT/GE/HDF5 normalisation readers not built.",
+   design="DESIGN.md §4 C13")
+CHECKS["C14"] = dict(
+   technique="Lean 4 proofs by induction over record streams (multi-pass = single pass, one count per event, frames add, cut-off), algebraic gradient identity, differential correspondence on the real LmToProjData and list-mode objective",
+   text="Proof: for every record stream, frame list, template and batch size in time-frame mode with regular frames: the multi-pass run of process_data equals the single-pass histogram, any two batch sizes give "
+        "the same result, each bin holds +1 per prompt / -1 (or delayed_increment) per delayed event of the frame assigned to it and nothing else, out-of-range events are dropped, frames of a partition add up to the "
+        "whole interval, num_events_to_store cuts at the characterised prefix; the list-mode gradient formula equals the projection-data gradient of the histogrammed data (an algebraic theorem about the two formulas only: the real list-mode objective class is not run). Two stream/frames classes where the "
+        "code deviates are negative-witness theorems and listed known findings. Tie: generated list-mode streams (a synthetic in-memory ListModeData whose events are real CListEventCylindricalScannerWithDiscreteDetectors) through the real LmToProjData for all batch sizes, frames and store switches, every non-zero bin of every frame compared exactly with the model; an independent event-count oracle on the implementation.",
+   note=TB + "event -> bin assignment is C01's model (data here); scanner-specific list-mode file decoders and PoissonLogLikelihoodWithLinearModelForMeanAndListModeDataWithProjMatrixByBin are not exercised.",
+   design="DESIGN.md §4 C14")
+CHECKS["C15"] = dict(
+   technique="Lean 4 proofs (SSRB commutes with binning for all ring/segment/view/TOF combinations, no double counting, total conservation with exact trimming account, overlap-interpolation conservation/uniform/centre-of-mass bounds), differential correspondence on real SSRB/zoom/inverse_SSRB",
+   text="Proof: for every number of rings, detectors, segments to combine, view and (odd) TOF mashing: the output bin SSRB adds an input bin to is the bin the output geometry assigns to every detector pair of that "
+        "input bin (given exact axial sampling, decidable), no input bin is added twice, totals are conserved exactly up to the stated account of trimmed ranges, mashed views sit at the mean angle; "
+        "overlap interpolation (zoom) conserves the total for covering output boxes, preserves uniform values and moves the centre of mass by at most half the box sizes; inverse_SSRB outputs are convex "
+        "combinations of direct sinograms at the right axial position. The C01 known geometry class reappears as a negative witness and listed known finding. "
+        "Tie: real SSRB (both overloads), zoom_image/overlap_interpolate and inverse_SSRB on generated geometries and data against the exact model; histogram-then-SSRB = histogram-coarse oracle on the implementation.",
+   note=TB + "3-D zoom is modelled as three separable 1-D overlap interpolations; arc-correction and interpolate_projdata are not modelled.",
+   design="DESIGN.md §4 C15")
+CHECKS["C16"] = dict(
+   technique="Lean 4 proofs over any ordered field (symmetry, linearity, non-negativity of the single-scatter formula), cache transparency, invalidation-table state machine for all setter histories, differential correspondence on the real ScatterSimulation",
+   text="Proof: the model of the single-scatter estimate is invariant under exchanging the detectors, linear in the activity image, zero for zero activity and non-negative for non-negative ingredients, for any "
+        "number of scatter points; reads through the line-integral cache equal uncached reads for any read sequence; for every history (any length) of setters / set_up / process_data whose operations satisfy the "
+        "stated guard the state equals that of a freshly configured simulation, via an invalidation table proved faithful to the modelled setters; exactly which setters lack an invalidation is a theorem with three "
+        "negative witnesses = three listed known findings. Tie: the real SingleScatterSimulation on small phantoms: detector-exchange, linearity, cache on/off and setter histories vs fresh objects (bitwise), with the "
+        "state-machine observations compared with the model.",
+   note=TB + "Compton cross-sections, detection efficiency and line integrals are uninterpreted non-negative quantities; OpenMP scatter paths are C18's.",
+   design="DESIGN.md §4 C16")
+CHECKS["C19"] = dict(
+   technique="Lean 4 proofs (radix-2 butterfly loop = DFT, inversion, Parseval, bit reversal, convolution loops with all index ranges and boundary conditions, circular = linear convolution condition, separability), exact/Float differential correspondence on the real FFT and filter classes",
+   text="Proof: the model of fourier_1d's iterative radix-2 loop equals the DFT definition for every power-of-two length over any commutative ring with a primitive root, inverse after forward returns the input, "
+        "Parseval/Plancherel, impulse -> constant; bit reversal is the involutive permutation; ArrayFilter1DUsingConvolution(+SymmetricKernel) loops are the convolutions they claim for arbitrary kernel/input/output "
+        "index ranges and boundary conditions and never read out of range; the padded-DFT route equals direct convolution when no wrap-around can occur (precise condition; witness that 'twice the length' alone is not enough); "
+        "separable filters commute in all axis orders; unit-sum kernels preserve the mean on constant support. 2-D/3-D convolution is partial (is_trivial defect) and a length-2 last dimension is rejected by the real inverse: "
+        "negative witnesses = listed known findings. The convolution theorem for the real-data packing is stated, not proved (correspondence only). "
+        "Tie: real fourier/inverse_fourier (complex and real data, 1-3 D), ArrayFilter*UsingConvolution, ArrayFilterUsingRealDFTWithPadding, SeparableArrayFunctionObject on generated arrays against the model (exact Rat where no "
+        "transcendental enters, Float with a derived bound otherwise); inversion/Parseval/impulse oracles on the implementation.",
+   note=TB + "sin/cos tables are roots of unity in the theorems and Float in the driver; float rounding by derived bound; Metz/Gaussian kernel values not modelled.",
+   design="DESIGN.md §4 C19")
+CHECKS["C20"] = dict(
+   technique="Lean 4 proofs (gap index maps, fan storage keys, fan round trip, apply/unapply, fixed points, KL descent of the efficiency sweep over the reals), exact-Rat differential correspondence on the real ML_norm code",
+   text="Proof: for every block/crystal/gap configuration removing and re-adding gaps are mutually inverse on physical crystals; fan-data storage keys stay inside the allocation, identify exactly the two namings of a "
+        "cross-ring pair, and the loop nest visits every stored element once; projection data -> fan -> projection data is lossless with gaps filled as requested and each entry is the value of the bin the geometry assigns "
+        "to the pair; apply followed by un-apply of efficiencies, block and geometric factors is the identity for non-zero factors, applying multiplies by the product of the two detectors' factors; model data are a fixed "
+        "point of the efficiency and block iterations (0 where the fan sum is 0); each coordinate update and hence every sweep of iterate_efficiencies does not increase the Kullback-Leibler distance (abstract "
+        "formulation, proved over the reals). Geometric-factor fixed point and KL descent at the level of the executable model are oracle-only; the library's own KL function double counts in-ring LORs (negative witness, listed known finding). "
+        "Tie: the real make_fan_data/set_fan_data/apply_*/iterate_*/make_*_data functions on generated small scanners against the exact-Rat model; fixed-point and descent oracles on the implementation.",
+   note=TB + "log only in the KL theorems (reals) and the oracle (double); GE/ECAT-specific normalisation files not exercised.",
+   design="DESIGN.md §4 C20")
+
 NOT_YET = {}
 
 def main():
